@@ -329,7 +329,15 @@ func (p *termProfile) op() {
 			st.Mutate(gvkNode, keyOf(o), func(o client.Object) {
 				n := o.(*corev1.Node)
 				if bad {
-					n.Status.Conditions = append(n.Status.Conditions, corev1.NodeCondition{Type: "BadNode", Status: corev1.ConditionTrue, LastTransitionTime: st.now()})
+					have := false
+					for _, c := range n.Status.Conditions {
+						if c.Type == "BadNode" {
+							have = true
+						}
+					}
+					if !have {
+						n.Status.Conditions = append(n.Status.Conditions, corev1.NodeCondition{Type: "BadNode", Status: corev1.ConditionTrue, LastTransitionTime: st.now()})
+					}
 				} else {
 					setNodeReady(n, false, st.now())
 				}
@@ -941,12 +949,16 @@ func (p *termProfile) checkRepairTask(t *Task) {
 			total, bad := len(lr.Objs), 0
 			for _, o := range lr.Objs {
 				n := o.(*corev1.Node)
+				unhealthy := false
 				for _, pol := range p.e.CP.Repair {
 					for _, c := range n.Status.Conditions {
 						if c.Type == pol.ConditionType && c.Status == pol.ConditionStatus {
-							bad++
+							unhealthy = true
 						}
 					}
+				}
+				if unhealthy {
+					bad++
 				}
 			}
 			thr := (total*20 + 99) / 100
